@@ -91,6 +91,11 @@ def run(ctx):
 
     # ---------------------------------------------------------------- R-FMT-AGREE
     fmt_agree(ctx, lexpr)
+    if ctx.tier == "thorough":
+        from .. import selftest
+        rs = ctx.rule("CONTROLS", "positive controls: the detectors fire on the seeded fixtures crate")
+        selftest.check_write(ctx, rs)
+        selftest.check_errdrop(ctx, rs)
 
 
 def sink_trace(path):
